@@ -153,3 +153,18 @@ fn entry_legacy(args: &[&str]) -> String {
         None => run_q(script, || mc::protocol::query_legacy(&addr(port), timeout(r)), show_java),
     }
 }
+
+crate::impl_view_dump!(
+    gamedig::games::minecraft::JavaResponse,
+    "games/minecraft/types.rs",
+    "JavaResponse",
+    "games/minecraft/types.rs",
+    "Player"
+);
+crate::impl_view_dump!(
+    gamedig::games::minecraft::BedrockResponse,
+    "games/minecraft/types.rs",
+    "BedrockResponse",
+    "",
+    ""
+);
